@@ -18,7 +18,7 @@ CONFIG = 'crates/anemo/src/config.rs'
 TYPES = P.TYPES
 TIMEOUT = 600
 # vacuity guard: cover points that must be reached: history: an add onto an existing entry; ticks: a dial, a re-dial after 1 failure, after 2
-COVER = {'active_peers_history': [0, 1], 'who_is_dialed': [0], 'background_dialing_ticks': [0, 1, 3, 4], 'dial_races_inbound_connect': [0, 3, 5], 'closed_connection_bookkeeping': [0, 1, 2], 'mutual_dial_through_manager': [0, 1]}
+COVER = {'active_peers_history': [0, 1], 'who_is_dialed': [0], 'background_dialing_ticks': [0, 1, 3, 4], 'dial_races_inbound_connect': [0, 3, 5], 'closed_connection_bookkeeping': [0, 1, 2], 'mutual_dial_through_manager': [0, 1], 'known_peers_change_during_dial': [0, 6, 7]}
 
 PRELUDE = r'''// GENERATED on every run by /verif/vc from /repo's working tree -- do not edit
 #![allow(dead_code, unused, non_upper_case_globals, non_camel_case_types, static_mut_refs)]
@@ -52,6 +52,14 @@ pub mod hash_map {
         pub fn insert(self, v: V) -> &'a mut V { self.map.items.push((self.key, v)); let n = self.map.items.len() - 1; &mut self.map.items[n].1 }
         pub fn key(&self) -> &K { &self.key }
     }
+    // (the rest of std's Entry API, for edits that reach for it)
+    impl<'a, K: PartialEq, V> Entry<'a, K, V> {
+        pub fn or_insert(self, default: V) -> &'a mut V { match self { Entry::Occupied(e) => e.into_mut(), Entry::Vacant(e) => e.insert(default) } }
+        pub fn or_insert_with<F: FnOnce() -> V>(self, default: F) -> &'a mut V { match self { Entry::Occupied(e) => e.into_mut(), Entry::Vacant(e) => e.insert(default()) } }
+        pub fn or_default(self) -> &'a mut V where V: Default { match self { Entry::Occupied(e) => e.into_mut(), Entry::Vacant(e) => e.insert(V::default()) } }
+        pub fn and_modify<F: FnOnce(&mut V)>(self, f: F) -> Self { match self { Entry::Occupied(mut e) => { f(e.get_mut()); Entry::Occupied(e) } Entry::Vacant(e) => Entry::Vacant(e) } }
+        pub fn key(&self) -> &K { match self { Entry::Occupied(e) => e.key(), Entry::Vacant(e) => e.key() } }
+    }
 }
 use hash_map::Entry;
 impl<K: PartialEq, V> HashMap<K, V> {
@@ -64,6 +72,9 @@ impl<K: PartialEq, V> HashMap<K, V> {
     pub fn remove(&mut self, k: &K) -> Option<V> { match self.pos(k) { Some(i) => Some(self.items.remove(i).1), None => None } }
     pub fn len(&self) -> usize { self.items.len() }
     pub fn is_empty(&self) -> bool { self.items.is_empty() }
+    pub fn clear(&mut self) { self.items.clear() }
+    pub fn iter_mut(&mut self) -> impl Iterator<Item = (&K, &mut V)> { self.items.iter_mut().map(|kv| (&kv.0, &mut kv.1)) }
+    pub fn remove_entry(&mut self, k: &K) -> Option<(K, V)> { match self.pos(k) { Some(i) => Some(self.items.remove(i)), None => None } }
     pub fn keys(&self) -> impl Iterator<Item = &K> { self.items.iter().map(|kv| &kv.0) }
     pub fn values(&self) -> impl Iterator<Item = &V> { self.items.iter().map(|kv| &kv.1) }
     pub fn values_mut(&mut self) -> impl Iterator<Item = &mut V> { self.items.iter_mut().map(|kv| &mut kv.1) }
@@ -231,7 +242,7 @@ pub fn main() {
     if args.len() == 4 && args[1] == "--replay" {
         // re-run ONE choice sequence with the panic message visible
         let choices: Vec<(u32, u32)> = args[3].split(',').filter(|s| !s.is_empty()).map(|s| (s.trim().parse().unwrap(), u32::MAX)).collect();
-        let f: fn(&mut Chooser) = match args[2].as_str() { "active_peers_history" => harness::active_peers_history, "mutual_dial_converges" => harness::mutual_dial_converges, "who_is_dialed" => harness::who_is_dialed, "dial_races_inbound_connect" => harness::dial_races_inbound_connect, "closed_connection_bookkeeping" => harness::closed_connection_bookkeeping, "mutual_dial_through_manager" => harness::mutual_dial_through_manager, _ => harness::background_dialing_ticks };
+        let f: fn(&mut Chooser) = match args[2].as_str() { "active_peers_history" => harness::active_peers_history, "mutual_dial_converges" => harness::mutual_dial_converges, "who_is_dialed" => harness::who_is_dialed, "dial_races_inbound_connect" => harness::dial_races_inbound_connect, "closed_connection_bookkeeping" => harness::closed_connection_bookkeeping, "mutual_dial_through_manager" => harness::mutual_dial_through_manager, "known_peers_change_during_dial" => harness::known_peers_change_during_dial, _ => harness::background_dialing_ticks };
         reset_statics();
         let mut ch = Chooser { path: choices, pos: 0 };
         f(&mut ch);
@@ -246,6 +257,7 @@ pub fn main() {
     run_all("dial_races_inbound_connect", harness::dial_races_inbound_connect);
     run_all("closed_connection_bookkeeping", harness::closed_connection_bookkeeping);
     run_all("mutual_dial_through_manager", harness::mutual_dial_through_manager);
+    run_all("known_peers_change_during_dial", harness::known_peers_change_during_dial);
 }
 pub mod harness {
     use super::*;
@@ -372,7 +384,7 @@ pub mod harness {
     }
 
     // ---------------- C13: background dialing over a few ticks ----------------
-    struct Model { fails: [u32; 2], noticed: [u64; 2], outcome_unnoticed: [u8; 2], dialing: [bool; 2], connected: [bool; 2] }   // outcome: 0 none, 1 failed, 2 succeeded
+    struct Model { fails: [u32; 2], noticed: [u64; 2], outcome_unnoticed: [u8; 2], dialing: [bool; 2], connected: [bool; 2], known: [bool; 2] }   // outcome: 0 none, 1 failed, 2 succeeded
     fn dial_log(cm: &ConnectionManager, from: usize) -> Vec<(u8, PeerId)> {
         let mut v = Vec::new();
         let mut i = from;
@@ -385,12 +397,12 @@ pub mod harness {
         let aff = [any_affinity(ch), any_affinity(ch)];
         let naddr: [usize; 2] = [ch.below(3) as usize, ch.below(3) as usize];
         let connected1 = ch.any_bool();
-        dialing_run(ch, cap, ids, aff, naddr, connected1, 1, false);
+        dialing_run(ch, cap, ids, aff, naddr, connected1, 1, false, false);
     }
     pub fn background_dialing_ticks(ch: &mut Chooser) { // @EOBL [C13] @BOUNDED every run of 4 connectivity checks over 2 High-affinity peers with 1..2 addresses each, cap 1 or 100, every dial in flight failing, succeeding or staying in flight, established connections possibly lost again, time advancing by 1s/10s/61s: never two concurrent dials to a peer, addresses rotate by CONSECUTIVE failure count, after k consecutive failures the next dial comes strictly later than noticed + min(60s, k x 10s), the cap on connections being established is respected, and at every check exactly min(eligible, free slots) dials are started (no eligible peer is left waiting while slots are free)
         let cap: usize = if ch.any_bool() { 1 } else { 100 };
         let naddr: [usize; 2] = [1 + ch.below(2) as usize, 1 + ch.below(2) as usize];
-        dialing_run(ch, cap, [P1, P2], [PeerAffinity::High, PeerAffinity::High], naddr, false, 4, false);
+        dialing_run(ch, cap, [P1, P2], [PeerAffinity::High, PeerAffinity::High], naddr, false, 4, false, false);
     }
     pub fn closed_connection_bookkeeping(ch: &mut Chooser) { // @EOBL [C09,C04] @BOUNDED every sequence of 3 operations (register connection 0 / register connection 1 through ConnectionManager::add_peer, explicit disconnect, exit of a running handler) over two connections of one peer, each of which may ALREADY have been ended by the remote side or the transport when the operation runs: after every step the event log replays to the listing, every listed connection has a running handler (the one whose exit reports its loss), and an explicit disconnect of a listed peer removes it at once and appends exactly LostPeer(peer, Requested)
         let config = Arc::new(Config { max_concurrent_outstanding_connecting_connections: Some(100), connection_backoff_ms: Some(10_000), max_connection_backoff_ms: Some(60_000), max_concurrent_connections: None });
@@ -435,9 +447,12 @@ pub mod harness {
         }
     }
     pub fn dial_races_inbound_connect(ch: &mut Chooser) { // @EOBL [C13,C06] @BOUNDED every run of 3 connectivity checks over 2 High-affinity peers (one address each, no cap) in which a peer that is being dialed may itself connect to us before that dial completes, the dial then failing, succeeding or staying in flight: the connection manager never panics (in particular every dial it started is answered to whoever waits for it), never dials a connected peer, and the back-off / rotation / one-dial-per-peer rules still hold
-        dialing_run(ch, 100, [P1, P2], [PeerAffinity::High, PeerAffinity::High], [1, 1], false, 3, true);
+        dialing_run(ch, 100, [P1, P2], [PeerAffinity::High, PeerAffinity::High], [1, 1], false, 3, true, false);
     }
-    fn dialing_run(ch: &mut Chooser, cap: usize, ids: [PeerId; 2], aff: [PeerAffinity; 2], naddr: [usize; 2], connected1: bool, ticks: usize, inbound_race: bool) {
+    pub fn known_peers_change_during_dial(ch: &mut Chooser) { // @EOBL [C13] @BOUNDED every run of 3 connectivity checks over 2 High-affinity peers (one address each, no cap) in which, between checks, a known peer may be removed from the known-peer table and put back (as an application updating a peer does) while its dial fails, succeeds or stays in flight: a peer is never dialed while an earlier dial to it is still in flight, a peer that is not known is not dialed, and the back-off / rotation rules still hold
+        dialing_run(ch, 100, [P1, P2], [PeerAffinity::High, PeerAffinity::High], [1, 1], false, 3, false, true);
+    }
+    fn dialing_run(ch: &mut Chooser, cap: usize, ids: [PeerId; 2], aff: [PeerAffinity; 2], naddr: [usize; 2], connected1: bool, ticks: usize, inbound_race: bool, churn: bool) {
         let config = Arc::new(Config { max_concurrent_outstanding_connecting_connections: Some(cap), connection_backoff_ms: None, max_connection_backoff_ms: None, max_concurrent_connections: None });
         let known = KnownPeers::new();
         let mut i = 0;
@@ -454,7 +469,7 @@ pub mod harness {
             pending_connections: JoinSet::new(), connection_handlers: JoinSet::new(), pending_dials: HashMap::default(), dial_backoff_states: HashMap::default(),
             active_peers: active, known_peers: known, service: Svc,
         };
-        let mut m = Model { fails: [0; 2], noticed: [0; 2], outcome_unnoticed: [0; 2], dialing: [false; 2], connected: [false, connected1] };
+        let mut m = Model { fails: [0; 2], noticed: [0; 2], outcome_unnoticed: [0; 2], dialing: [false; 2], connected: [false, connected1], known: [true; 2] };
         let mut now = Instant(1_000_000_000_000);
         let mut next_sid = 2;
         let mut tick = 0;
@@ -472,7 +487,7 @@ pub mod harness {
             let mut p = 0;
             while p < 2 {
                 let waited = m.fails[p] == 0 || now.0 > m.noticed[p] + std::cmp::min(60_000_000_000u64, 10_000_000_000u64 * m.fails[p] as u64);
-                if matches!(aff[p], PeerAffinity::High) && ids[p] != ME && naddr[p] > 0 && !m.connected[p] && !m.dialing[p] && waited { eligible += 1; }
+                if m.known[p] && matches!(aff[p], PeerAffinity::High) && ids[p] != ME && naddr[p] > 0 && !m.connected[p] && !m.dialing[p] && waited { eligible += 1; }
                 p += 1;
             }
             let before = cm.pending_connections.tasks.len();
@@ -485,7 +500,7 @@ pub mod harness {
                 let (addr, who) = dials[d];
                 let p = if who == ids[0] { 0 } else { 1 };
                 assert!(who == ids[p]);
-                assert!(matches!(aff[p], PeerAffinity::High) && who != ME && naddr[p] > 0, "dialed a peer that must never be background-dialed");
+                assert!(matches!(aff[p], PeerAffinity::High) && who != ME && naddr[p] > 0 && m.known[p], "dialed a peer that must never be background-dialed");
                 assert!(!m.connected[p], "dialed a connected peer");
                 assert!(!m.dialing[p], "dialed a peer that is already being dialed");
                 if m.fails[p] > 0 { cover(1); if m.fails[p] > 1 { cover(2); }
@@ -515,6 +530,18 @@ pub mod harness {
                         cm.handle_connecting_result(ConnectingOutput { connecting_result: result, maybe_oneshot: Some(oneshot), target_address: Some(address), target_peer_id: peer_id });
                     }
                 } else { t += 1; }
+            }
+            // the application may take a peer out of the known-peer table and put it back (that is how an entry is updated)
+            if churn {
+                let mut p = 0;
+                while p < 2 {
+                    if ch.any_bool() {
+                        if m.known[p] { let _ = cm.known_peers.remove(&ids[p]); m.known[p] = false; cover(6); }
+                        else { let mut address = Vec::new(); let mut j = 0; while j < naddr[p] { address.push(Address((10 * p + j) as u8)); j += 1; }
+                               cm.known_peers.insert(PeerInfo { peer_id: ids[p], affinity: aff[p], address }); m.known[p] = true; cover(7); }
+                    }
+                    p += 1;
+                }
             }
             // an established connection may be lost again before the next check
             let mut p = 0;
@@ -559,8 +586,8 @@ def build(ctx):
     # ---- known peers ----
     t += C.item(CM, 'struct KnownPeers', derives=False)
     t += 'impl KnownPeers {\n    pub fn new() -> Self { KnownPeers(Arc::new(RwLock::new(HashMap::default()))) }\n'
-    for f in ('get', 'insert', 'inner', 'inner_mut'):
-        t += C.fn(CM, 'impl KnownPeers :: fn ' + f, 'KnownPeers::' + f, ['C13'], probe=False, rewrites=rw)
+    for f in ('get', 'insert', 'remove', 'inner', 'inner_mut'):
+        t += C.fn(CM, 'impl KnownPeers :: fn ' + f, 'KnownPeers::' + f, ['C13'], probe=False, rewrites=rw, optional=(f == 'remove'))
     t += '}\n'
     # ---- dial back-off + connection manager ----
     t += C.item(CM, 'struct DialBackoffState', rewrites=[dict(rule='X5', pattern='std::time::Instant', repl='Instant')])
@@ -596,7 +623,7 @@ def build(ctx):
     if getattr(C, 'tier', 'quick') == 'thorough':
         # the thorough tier explores one step deeper (histories of 5 set operations, 5 connectivity checks)
         for a, b in (('while step < 4 {', 'while step < 5 {'), ('every history of 4 operations', 'every history of 5 operations'),
-                     ('naddr, false, 4, false);', 'naddr, false, 5, false);'), ('every run of 4 connectivity checks', 'every run of 5 connectivity checks')):
+                     ('naddr, false, 4, false, false);', 'naddr, false, 5, false);'), ('every run of 4 connectivity checks', 'every run of 5 connectivity checks')):
             assert h.count(a) == 1, a
             h = h.replace(a, b)
     t += h
